@@ -103,11 +103,12 @@ for it in range(N):
         tw2 = pd.DataFrame([list(map(float, rs.dirichlet(np.ones(len(tgt_names)))))] * n, index=idx, columns=tgt_names)
         hw = rs.dirichlet(np.ones(len(held)))
         t = T(data, now, {}, value=1.0); t.positions = pd.DataFrame([hw / data.loc[now, held].values], index=[now], columns=held)
-        got = A.PTE_Rebalance(capv, tw2, lookback=lb)(t); evals += 1
         cur = pd.Series(hw, index=held).reindex(names).fillna(0.0).values; tg = tw2.loc[now].reindex(names).fillna(0.0).values
         diff = cur - tg
         pte = float(np.sqrt(diff @ cv @ diff * 252))
-        if abs(pte - capv) > 1e-9 and bool(got) != (pte > capv): bad("pte-trigger-on-differing-name-sets", got=bool(got), pte=pte, cap=capv)
+        for cap2 in [pte * f for f in (0.3, 0.6, 0.9, 1.1, 1.7, 2.5)]:      # caps on both sides of this tracking error
+            got = A.PTE_Rebalance(cap2, tw2, lookback=lb)(t); evals += 1
+            if bool(got) != (pte > cap2): bad("pte-trigger-on-differing-name-sets", got=bool(got), pte=pte, cap=cap2)
     if it < 1: samples.append(dict(assets=n_assets, target_vol=tv, achieved=vol))
 print("JSON:" + json.dumps(dict(evaluations=evals, distinct=len(distinct), failures=fails[:5], samples=samples,
       rule="random return histories (2-5 assets, 80 dates) through the real WeighInvVol / WeighERC / WeighMeanVar shortcuts / WeighRandomly / LimitWeights / LimitDeltas / TargetVol / PTE_Rebalance against their documented relations recomputed with numpy",
